@@ -21,7 +21,7 @@ import render
 from common import Check, run_tlc, run_oalv_parallel
 
 BASE = "file:///w/"
-MARKERS = {"d", "u", "q", "p", "t"}
+MARKERS = {"d", "u", "q", "p", "t", "z"}         # z: a decoy module nobody imports
 
 
 def group_cases(cases):
@@ -54,14 +54,15 @@ def var_paths(stmts):
     return out
 
 
-def expected_def_span(binder, maps):
+def expected_def_span(binder, maps, urls=None):
     if binder["kind"] == "internal":
         return "internal"
     mp = maps[binder["m"]]
     ent = mp[pkey(binder["p"])]
+    url = urls[binder["m"]] if urls else BASE + binder["m"] + ".oal"
     if binder["kind"] == "rec":
-        return [BASE + binder["m"] + ".oal"] + ent["name"]
-    return [BASE + binder["m"] + ".oal"] + ent["span"]
+        return [url] + ent["name"]
+    return [url] + ent["span"]
 
 
 def markers_of(doc):
@@ -153,18 +154,29 @@ def run(tier):
     import c02
     import oracle
     progs = group_cases(r.cases)
-    cases = []
-    rendered = []
-    for i, g in enumerate(progs):
-        rp_ = render.render_program(g["prog"], style=(i + common.seed()) % 4)
-        rendered.append(rp_)
-        cases.append({"main": rp_["main"], "files": rp_["files"], "resolve_only": True, "want": {"bindings": True, "decls": True}})
-    obs = run_oalv_parallel("compile", cases, jobs=8)
-    full = run_oalv_parallel("compile", [{"main": c["main"], "files": c["files"], "want": {"doc": True}} for c in cases], jobs=8)
     nontrivial = 0
     dyn = 0
     accepted_progs = []
-    for g, rp_, o, f in zip(progs, rendered, obs, full):
+    # the family is compiled twice: all modules side by side, and the imported modules in a sub-directory (an import is
+    # written relative to the importing module; beside the main module sit decoys under the names of the moved modules,
+    # which no module imports)
+    passes = []
+    for layout in (None, {"g": "lib/g", "h": "lib/h"}):
+        rendered = []
+        cases = []
+        for i, g in enumerate(progs):
+            rp_ = render.render_program(g["prog"], style=(i + common.seed()) % 4, layout=layout)
+            if layout:
+                for m in layout:
+                    if m in g["prog"]["mods"]:
+                        rp_["files"][BASE + m + ".oal"] = "let n = { 'z num };\nlet u = { 'z num };\nlet f x = { 'z x };\n"
+            rendered.append(rp_)
+            cases.append({"main": rp_["main"], "files": rp_["files"], "resolve_only": True, "want": {"bindings": True, "decls": True}})
+        obs = run_oalv_parallel("compile", cases, jobs=8)
+        full = run_oalv_parallel("compile", [{"main": c["main"], "files": c["files"], "want": {"doc": True}} for c in cases], jobs=8)
+        passes.append((layout, rendered, obs, full))
+    chk.notes["layouts"] = ["all modules in one directory", "imported modules in lib/ with decoys of the same names beside the main module"]
+    for g, rp_, o, f, layout in [(g, rp_, o, f, layout) for layout, rendered_, obs_, full_ in passes for g, rp_, o, f in zip(progs, rendered_, obs_, full_)]:
         prog = g["prog"]
         text = rp_["files"][BASE + "m1.oal"]
         payload = {"prog_text": rp_["files"], "spec": {m: {"err": g["mods"][m]["err"]} for m in g["mods"]}}
@@ -191,15 +203,15 @@ def run(tier):
         # binding tables, module by module
         bad = False
         for m in prog["mods"]:
-            if BASE + m + ".oal" not in o["modules"]:
+            if rp_["urls"][m] not in o["modules"]:
                 continue                 # not imported: never loaded
-            real = {tuple(b["use"][1:]): b for b in o["modules"][BASE + m + ".oal"]["bindings"]}
+            real = {tuple(b["use"][1:]): b for b in o["modules"][rp_["urls"][m]]["bindings"]}
             mp = rp_["maps"][m]
             table = {pkey(row["use"]): row["b"] for row in g["mods"][m]["table"]}
             for p in var_paths(prog["mods"][m]):
                 ent = mp[pkey(p)]
                 rb = real.get((ent["span"][0], ent["span"][1]))
-                want = expected_def_span(table[pkey(p)], rp_["maps"])
+                want = expected_def_span(table[pkey(p)], rp_["maps"], rp_["urls"])
                 if rb is None or rb["def"] is None:
                     got = None
                 elif "int" in rb["def"]:
@@ -211,13 +223,14 @@ def run(tier):
                     wk = table[pkey(p)]["kind"] + "@" + table[pkey(p)]["m"]
                     gk = "none" if got is None else ("internal" if got == "internal" else rb["def"]["ext"] + "@" + got[0][len(BASE):-4])
                     chk.violation("C08|binding|real=%s spec=%s" % (gk, wk),
-                                  "use at %s of module %s is bound to %s, the binding relation says %s, in %r" % (p, m, got, want, rp_["files"][BASE + m + ".oal"][:160]),
+                                  "use at %s of module %s is bound to %s, the binding relation says %s, in %r" % (p, m, got, want, rp_["files"][rp_["urls"][m]][:160]),
                                   dict(payload, module=m, use=p, real=got, spec=want))
         if not bad:
             chk.cov["traces_validated_against_impl"] += 1
         nontrivial += 1
         # evaluation honours the binding (marker properties; the sites with a use after a rec are judged by the denotation below)
-        accepted_progs.append((prog, rp_, f))
+        if layout is None:
+            accepted_progs.append((prog, rp_, f))
         if has_prop_t(prog["mods"]["m1"]):
             continue
         row, node = contested_use(prog, g["mods"]["m1"]["table"])
@@ -338,7 +351,7 @@ def run(tier):
     if len(members) < 30 or (dsame == 0 and not chk.violations):
         raise common.ToolError("DynScope family: %d members defined, %d compared - the evaluation part would be vacuous" % (len(members), dsame))
     chk.notes["dynscope_members_equal_to_denotation"] = "%d/%d" % (dsame, len(members))
-    chk.cov["evaluations"] = len(progs) + len(members)
+    chk.cov["evaluations"] = 2 * len(progs) + len(members)
     chk.cov["distinct_nontrivial"] = nontrivial + len(members)
     chk.notes["dynamic_agreement_checked"] = dyn
     chk.cov["exhaustive"] = True
@@ -349,6 +362,7 @@ def run(tier):
                        "evaluated document must equal the denotation Den.tla computes with lexical environments; plus seeded random composite programs in which binders take "
                        "the names of other binders in scope (60 quick / 500 thorough): binding tables from ResolveMC.tla in oracle mode, documents from Den.tla")
     if progs:
+        rendered = passes[0][1]
         chk.sample({"program": rendered[len(progs) // 3]["files"][BASE + "m1.oal"], "spec_table_main": progs[len(progs) // 3]["mods"]["m1"]["table"][:4],
                     "spec_err": progs[len(progs) // 3]["mods"]["m1"]["err"]})
     chk.assumptions = [
